@@ -1,295 +1,10 @@
 /-
-Model driver for the `fs` line protocol (filespace family, properties C01–C07): executable `m_fs`.
-The Go side (`/verif/harness/cmd/fs`, `fs drive`) reads the same lines and runs the real code;
-the two output streams are compared line by line.
-
-PROTOCOL  (one operation per line, one result line per operation, except `pathenum`)
-  tokens are separated by single spaces;  `#…` and empty lines are skipped (no result line)
-  <fs> <id> <k> <i> <size> <n>  decimal numbers
-  <path> <data> <chunk> <name>   byte strings in lower-case hex, the empty string is `-`
-  <b>                            a byte, decimal 0..255
-
-  reset                              -> ok        forget every filespace and kept buffer (start of a history)
-  new <id> <kind> [<arg>…]           -> ok | err | bad-op
-        bind <id> to a fresh filespace.  kinds:   mem            memfs.NewFilespace()
-        (EXTENSION POINT: further kinds — disk, enc, cache, ro, sub — are added as new `kind`
-         words with their own arguments, e.g. `new 3 cache 0`; existing op syntax does not change.
-         In this file: a constructor of `Backend`, a case in `newFS`, `applyOp`, `openViewOf`.)
-  view <id> <fs> <path>              -> ok | err   bind <id> to <fs>.Filespace(path)
-  write <fs> <path> <data>           -> ok | err   WriteFile
-  writer <fs> <path> <chunk>*        -> ok | err   Writer, one Write per chunk, Close
-  reader <fs> <path> <size>*         -> rd <hex>:<e|c>,… | err
-        Reader, one Read per size (buffer of that length), Close; per read the bytes delivered and
-        `e` when io.EOF was returned with them, `c` otherwise (`rd` alone when no size is given)
-  mkdir | remove | removeall <fs> <path>          -> ok | err
-  readfile <fs> <path>               -> data <hex> | err
-  readdir <fs> <path>                -> list <name>:<d|f>,… | err      entries in the order returned
-  isexist | isfile | isdir <fs> <path>            -> t | f
-  lstat <fs> <path>                  -> stat <name> d | stat <name> f <size> | err
-  copy | copyfile | copydir <fs> <src> <dst>      -> ok | err
-  dump <fs>                          -> tree <path>/ … <path>=<data> … | err
-        full walk from the filespace's root through the public interface only (ReadDir, ReadFile,
-        cross-checked with IsExist/IsDir/IsFile), entries sorted by path bytes, directories as
-        `<path>/`, files as `<path>=<data>`; `<path>!` marks an entry whose queries are inconsistent
-        (never printed by a model); `err` when the root cannot be listed
-  alias probes (snapshot clause of C01) — the driver remembers the byte slice or listing that the
-  immediately preceding line handed in (`write`: the data buffer, `writer`: the last chunk buffer)
-  or out (`readfile`: the returned slice, `readdir`: the returned listing, `reader`: the filled
-  part of the last buffer); any other line forgets it:
-  keep <k>                           -> ok | none  store that buffer in slot <k>
-  mutate <k> <i> <b>                 -> ok | none  slot <k>, element <i>: a byte slice gets byte <b>,
-                                                   a listing gets a copy of its element number <b> mod length;
-                                                   `none` when the slot is empty or <i> out of range
-  recheck <k>                        -> data <hex> | list … | none     current content of slot <k>
-        A model has no aliasing: `recheck` shows the kept value with the caller's own mutations and
-        nothing else, and no `mutate` changes a filespace.
-  path clean|cleanpath|reduce <hex>  -> data <hex> | err     path.Clean, varutil.CleanPath, varutil.ReduceAbsPath
-  pathenum <n>                       -> one line `<hex> <clean> <cleanpath> <reduce|err>` for every
-                                        string of length ≤ n over {a . /} (shorter first, then a < . < /)
-  results common to every line: `nofs` (unknown <fs>), `bad-op` (unparsable);  only the
-  implementation side can answer `panic` or `hang`.
+Executable `m_fs`: the model driver of the `fs` line protocol for C01 (memory filespace only).
+Protocol, generic interpreter and the extension mechanism: `Driver/FSCore.lean`; the memory backend:
+`Driver/FSMem.lean`.  Other families do not import this file (it defines `main`): they write their own
+root next to it (see /verif/notes/FS_EXTENDING.md).
 -/
-import Goat.Model.MemFS
-open Goat Goat.FS Goat.MemFS
+import Driver.FSCore
+import Driver.FSMem
 
-/-- EXTENSION POINT: one constructor per backend kind.  A memory filespace is a store (the shared
-root tree) and a handle into it (root or wrapper). -/
-inductive Backend where
-  | mem (store : Nat) (ref : FSRef)
-
-inductive Kept where
-  | bytes (b : Bytes)
-  | listing (l : List (Bytes × Bool))
-
-structure St where
-  stores : Array Node := #[]
-  fss : List (Nat × Backend) := []
-  slots : List (Nat × Kept) := []
-  last : Option Kept := none
-
-def St.fs? (s : St) (id : Nat) : Option Backend := (s.fss.find? (·.1 == id)).map (·.2)
-def St.bind (s : St) (id : Nat) (b : Backend) : St :=
-  { s with fss := (id, b) :: s.fss.filter (·.1 != id) }
-
-/-- EXTENSION POINT: `new <id> <kind> <args>` -/
-def newFS (s : St) (kind : String) (args : List String) : Option (St × Option Backend) :=
-  match kind, args with
-  | "mem", [] =>
-    let store := s.stores.size
-    some ({ s with stores := s.stores.push Node.empty }, some (.mem store .root))
-  | _, _ => none
-
-/-- EXTENSION POINT: one interface call on a backend -/
-def applyOp (s : St) (b : Backend) (op : Op) : St × Result :=
-  match b with
-  | .mem store ref =>
-    let t := s.stores[store]!
-    let (t', r) := MemFS.step ref t op
-    ({ s with stores := s.stores.set! store t' }, r)
-
-/-- EXTENSION POINT: `Filespace(path)` of a backend -/
-def openViewOf (_s : St) (b : Backend) (raw : Bytes) : Option Backend :=
-  match b with
-  | .mem store ref => (MemFS.openView ref raw).map (.mem store)
-
-/-! ### printing -/
-
-def showEntries (l : List (Bytes × Bool)) : String :=
-  ",".intercalate (l.map fun (n, d) => s!"{Hex.encode n}:{if d then "d" else "f"}")
-
-def showList (l : List (Bytes × Bool)) : String :=
-  if l.isEmpty then "list" else "list " ++ showEntries l
-
-def showResult : Result → String
-  | .ok => "ok"
-  | .err => "err"
-  | .bool b => if b then "t" else "f"
-  | .data d => s!"data {Hex.encode d}"
-  | .list l => showList l
-  | .stat n true _ => s!"stat {Hex.encode n} d"
-  | .stat n false sz => s!"stat {Hex.encode n} f {sz}"
-  | .chunks l =>
-    if l.isEmpty then "rd" else
-    "rd " ++ ",".intercalate (l.map fun (c, e) => s!"{Hex.encode c}:{if e then "e" else "c"}")
-
-def bytesLt : Bytes → Bytes → Bool
-  | [], [] => false
-  | [], _ :: _ => true
-  | _ :: _, [] => false
-  | a :: as, b :: bs => if a < b then true else if b < a then false else bytesLt as bs
-
-/-- the generic walk of `dump`, through interface calls only (works for every backend) -/
-partial def walkFS (s : St) (b : Backend) (dir : Bytes) : List (Bytes × String) :=
-  match (applyOp s b (.readDir dir)).2 with
-  | .list l =>
-    l.flatMap fun (name, isDir) =>
-      let p := if dir.isEmpty then name else dir ++ Path.slash :: name
-      let q (op : Op) : Bool := (applyOp s b op).2 == .bool true
-      let consistent := q (.isExist p) && (q (.isDir p) == isDir) && (q (.isFile p) == !isDir)
-      if !consistent then [(p, Hex.encode p ++ "!")]
-      else if isDir then (p, Hex.encode p ++ "/") :: walkFS s b p
-      else match (applyOp s b (.readFile p)).2 with
-        | .data d => [(p, s!"{Hex.encode p}={Hex.encode d}")]
-        | _ => [(p, Hex.encode p ++ "!")]
-  | _ => [(dir, Hex.encode dir ++ "!")]
-
-def dumpFS (s : St) (b : Backend) : String :=
-  match (applyOp s b (.readDir [])).2 with
-  | .list _ =>
-    let items := (walkFS s b []).mergeSort (fun x y => !bytesLt y.1 x.1)
-    if items.isEmpty then "tree" else "tree " ++ " ".intercalate (items.map (·.2))
-  | _ => "err"
-
-/-! ### parsing -/
-
-def hexs (l : List String) : Option (List Bytes) := l.mapM Hex.decode
-def nats (l : List String) : Option (List Nat) := l.mapM String.toNat?
-
-/-- a parsed interface call and the buffer it hands in, if any -/
-def parseOp (cmd : String) (args : List String) : Option (Op × Option Kept) := do
-  match cmd, args with
-  | "write", [p, d] =>
-    let d ← Hex.decode d
-    pure (.writeFile (← Hex.decode p) d, some (.bytes d))
-  | "writer", p :: cs =>
-    let cs ← hexs cs
-    pure (.writer (← Hex.decode p) cs, cs.getLast?.map .bytes)
-  | "reader", p :: ss => pure (.reader (← Hex.decode p) (← nats ss), none)
-  | "mkdir", [p] => pure (.mkdirAll (← Hex.decode p), none)
-  | "remove", [p] => pure (.remove (← Hex.decode p), none)
-  | "removeall", [p] => pure (.removeAll (← Hex.decode p), none)
-  | "readfile", [p] => pure (.readFile (← Hex.decode p), none)
-  | "readdir", [p] => pure (.readDir (← Hex.decode p), none)
-  | "isexist", [p] => pure (.isExist (← Hex.decode p), none)
-  | "isfile", [p] => pure (.isFile (← Hex.decode p), none)
-  | "isdir", [p] => pure (.isDir (← Hex.decode p), none)
-  | "lstat", [p] => pure (.lstat (← Hex.decode p), none)
-  | "copy", [a, b] => pure (.copy (← Hex.decode a) (← Hex.decode b), none)
-  | "copyfile", [a, b] => pure (.copyFile (← Hex.decode a) (← Hex.decode b), none)
-  | "copydir", [a, b] => pure (.copyDirectory (← Hex.decode a) (← Hex.decode b), none)
-  | _, _ => none
-
-/-- the buffer a result hands out -/
-def keptOfResult : Result → Option Kept
-  | .data d => some (.bytes d)
-  | .list l => some (.listing l)
-  | .chunks l => l.getLast?.map fun c => .bytes c.1
-  | _ => none
-
-def setAt {α} (l : List α) (i : Nat) (x : α) : List α := l.set i x
-
-def mutateKept (k : Kept) (i b : Nat) : Option Kept :=
-  match k with
-  | .bytes d => if i < d.length then some (.bytes (d.set i (UInt8.ofNat b))) else none
-  | .listing l =>
-    if i < l.length then (l[b % l.length]?).map fun e => .listing (l.set i e) else none
-
-def showKept : Kept → String
-  | .bytes d => s!"data {Hex.encode d}"
-  | .listing l => showList l
-
-def showPathFn (fn : String) (b : Bytes) : Option String :=
-  match fn with
-  | "clean" => some s!"data {Hex.encode (Path.clean b)}"
-  | "cleanpath" => some s!"data {Hex.encode (Path.cleanPath b)}"
-  | "reduce" => some (match Path.reduceAbsPath b with | some r => s!"data {Hex.encode r}" | none => "err")
-  | _ => none
-
-def pathAlphabet : List UInt8 := [97, 46, 47]
-
-partial def pathEnum (len : Nat) (cur : List UInt8) (out : IO.FS.Stream) : IO Unit := do
-  if len = 0 then
-    let p := cur.reverse
-    let red := match Path.reduceAbsPath p with | some r => Hex.encode r | none => "err"
-    out.putStrLn s!"{Hex.encode p} {Hex.encode (Path.clean p)} {Hex.encode (Path.cleanPath p)} {red}"
-  else
-    for a in pathAlphabet do
-      pathEnum (len - 1) (a :: cur) out
-
-/-- one protocol line: new state and the result line -/
-def stepLine (s : St) (line : String) : St × String :=
-  let forget (s : St) : St := { s with last := none }
-  match line.splitOn " " with
-  | ["reset"] => ({}, "ok")
-  | "new" :: id :: kind :: args =>
-    match id.toNat?, newFS s kind args with
-    | some id, some (s', some b) => (forget (s'.bind id b), "ok")
-    | some _, some (s', none) => (forget s', "err")
-    | _, _ => (forget s, "bad-op")
-  | ["view", id, fs, p] =>
-    match id.toNat?, fs.toNat?, Hex.decode p with
-    | some id, some fs, some p =>
-      match s.fs? fs with
-      | none => (forget s, "nofs")
-      | some b =>
-        match openViewOf s b p with
-        | some v => (forget (s.bind id v), "ok")
-        | none => (forget s, "err")
-    | _, _, _ => (forget s, "bad-op")
-  | ["dump", fs] =>
-    match fs.toNat? with
-    | none => (forget s, "bad-op")
-    | some fs =>
-      match s.fs? fs with
-      | none => (forget s, "nofs")
-      | some b => (forget s, dumpFS s b)
-  | ["keep", k] =>
-    match k.toNat?, s.last with
-    | some k, some v => ({ s with slots := (k, v) :: s.slots.filter (·.1 != k), last := none }, "ok")
-    | some _, none => (forget s, "none")
-    | none, _ => (forget s, "bad-op")
-  | ["mutate", k, i, b] =>
-    match k.toNat?, i.toNat?, b.toNat? with
-    | some k, some i, some b =>
-      match (s.slots.find? (·.1 == k)).bind fun e => mutateKept e.2 i b with
-      | some v => ({ s with slots := (k, v) :: s.slots.filter (·.1 != k), last := none }, "ok")
-      | none => (forget s, "none")
-    | _, _, _ => (forget s, "bad-op")
-  | ["recheck", k] =>
-    match k.toNat? with
-    | none => (forget s, "bad-op")
-    | some k =>
-      match s.slots.find? (·.1 == k) with
-      | some e => (forget s, showKept e.2)
-      | none => (forget s, "none")
-  | ["path", fn, h] =>
-    match Hex.decode h with
-    | none => (forget s, "bad-op")
-    | some b => (forget s, (showPathFn fn b).getD "bad-op")
-  | cmd :: fs :: args =>
-    match fs.toNat?, parseOp cmd args with
-    | some fs, some (op, handedIn) =>
-      match s.fs? fs with
-      | none => (forget s, "nofs")
-      | some b =>
-        let (s', r) := applyOp s b op
-        let last := match handedIn with
-          | some k => some k
-          | none => keptOfResult r
-        ({ s' with last := last }, showResult r)
-    | _, _ => (forget s, "bad-op")
-  | _ => (forget s, "bad-op")
-
-partial def loop (inp out : IO.FS.Stream) (s : St) : IO Unit := do
-  let line ← inp.getLine
-  if line.isEmpty then return ()
-  let line := (line.dropEndWhile (fun c => c = '\n' || c = '\r')).toString
-  if line.isEmpty || line.startsWith "#" then loop inp out s else
-  match line.splitOn " " with
-  | ["pathenum", n] =>
-    match n.toNat? with
-    | some k =>
-      for l in [0:k+1] do pathEnum l [] out
-      loop inp out s
-    | none =>
-      out.putStrLn "bad-op"
-      loop inp out s
-  | _ =>
-    let (s', res) := stepLine s line
-    out.putStrLn res
-    loop inp out s'
-
-def main : IO Unit := do
-  let out ← IO.getStdout
-  loop (← IO.getStdin) out {}
-  out.flush
+def main : IO Unit := FSDrv.runMain FSDrv.memImpl
